@@ -183,7 +183,7 @@ impl<'a> FnGen<'a> {
                 ctx.define(&t, Ty::Int(s));
                 let f = reg(*self.rng.pick(&FLAGS), 1);
                 if self.rng.chance(1, 2) {
-                    let c = cst(self.rng.below(3) as i64, s);
+                    let c = cst(*self.rng.pick(&[0, 1, 1, 2]), s);
                     let op = if self.rng.chance(1, 2) { IntEqual } else { IntNotEqual };
                     self.push_def(defs, b, Def::Assign { var: f, value: bin(op, var(&t), c) });
                 } else {
@@ -372,6 +372,36 @@ impl<'a> FnGen<'a> {
                 jmps = self.gen_jmps(b, b + 1 == n, &mut defs, &mut ctx, &mut ind);
             }
             blocks.push(Term { tid: blk_tid(b), term: Blk { defs, jmps, indirect_jmp_targets: ind } });
+        }
+        // planted pattern "empty forwarding entry block that is also the target of a back edge"
+        if self.mode == Mode::Forward && n >= 3 && self.rng.chance(2, 3) {
+            let t = 1 + self.rng.below((n - 1) as u64) as usize;
+            blocks[0].term.defs.clear();
+            blocks[0].term.indirect_jmp_targets.clear();
+            blocks[0].term.jmps = vec![Term { tid: mk_tid(&format!("instr_{}_j0", blk_addr(0)), &blk_addr(0)), term: Jmp::Branch(blk_tid(t)) }];
+            // retarget one direct jump of a later block to the entry block
+            let from = 1 + self.rng.below((n - 1) as u64) as usize;
+            // (two rounds: first only blocks with defs - an empty source block would be bypassed itself)
+            for k in 0..2 * (n - 1) {
+                let b = 1 + (from - 1 + k) % (n - 1);
+                if k < n - 1 && blocks[b].term.defs.is_empty() {
+                    continue;
+                }
+                let mut done = false;
+                for j in blocks[b].term.jmps.iter_mut().rev() {
+                    match &mut j.term {
+                        Jmp::Branch(tgt) | Jmp::CBranch { target: tgt, .. } => {
+                            *tgt = blk_tid(0);
+                            done = true;
+                            break;
+                        }
+                        _ => (),
+                    }
+                }
+                if done {
+                    break;
+                }
+            }
         }
         // planted pattern "register re-assigned by a load": x: r := e ; goto x+1 | x+1: r := [a] ; goto x+2 |
         // x+2: uses r.  (Other jumps may still target these blocks.)
